@@ -1443,6 +1443,61 @@ def _plain_delegation_target(F, c, sites):
     return bool(mod) and all(p.startswith(mod + '::') for p, _ in sites) and len(sites) <= 2
 
 
+def devirtualize(F):
+    """A call of a crate-local trait method inside (a spliced copy of) a generic helper - `base.base_of(p)` with `base: &B`,
+    `B: BaseSource` - is resolved to the impl of the concrete type the receiver was built with at this call site
+    (`&TrustedBase(base)` / `&NoBase`), when that type is visible in the caller.  -> number of calls resolved"""
+    from facts import norm
+    traits = {i['trait'] for i in F.impls if i.get('crate') and not re.match(r'^(std|core|alloc|serde|tokio|blake3|bincode|clap|tracing)\b', i['trait'])}
+    traits = {t for t in traits if re.match(r'^[a-z_][a-z0-9_]*(::[A-Za-z_][A-Za-z0-9_]*)+$', t)}
+    if not traits:
+        return 0
+    impls = {}      # (trait, method) -> [(self type without generics, body path)]
+    for p_ in list(F.bodies) + list(getattr(F, 'inlined', {}) or {}):
+        m = re.match(r'^<(.+) as ([a-z_][A-Za-z0-9_:]*)(?:<.*>)?>::([A-Za-z_][A-Za-z0-9_]*)$', p_)
+        if m and m.group(2) in traits:
+            impls.setdefault((m.group(2), m.group(3)), []).append((re.sub(r"<.*$", '', m.group(1)).lstrip('&').strip(), p_))
+    n = 0
+    for p, b in F.bodies.items():
+        for bi, blk in enumerate(b.blocks):
+            t = blk['term']
+            if not t or t['k'] != 'call' or not t.get('args') or t.get('devirt'):
+                continue
+            f = t.get('func', {})
+            c = norm(f.get('fn')) if f.get('fn') else None
+            if not c or '::' not in c:
+                continue
+            tr, meth = c.rsplit('::', 1)
+            if tr not in traits or (tr, meth) not in impls:
+                continue
+            # the concrete type behind the receiver: follow plain moves / borrows back to a local of a crate type
+            cur, hops, ty = t['args'][0], 0, None
+            while hops < 12 and cur['k'] != 'const' and not [e for e in cur['p']['proj'] if e != 'deref']:
+                hops += 1
+                lty = re.sub(r"<.*$", '', b.locals[cur['p']['l']]['ty'].replace('&', '').replace('mut ', '').strip())
+                if any(lty == st for st, _ in impls[(tr, meth)]):
+                    ty = lty
+                    break
+                ds = [st for blk2 in b.blocks for st in blk2['stmts'] if st['dst']['l'] == cur['p']['l'] and not st['dst']['proj']]
+                if len(ds) != 1:
+                    break
+                rv = ds[0]['rv']
+                if rv['k'] in ('use', 'cast') and rv['ops'][0]['k'] != 'const':
+                    cur = rv['ops'][0]
+                elif rv['k'] == 'ref':
+                    cur = {'k': 'copy', 'p': rv['p']}
+                else:
+                    break
+            if ty is None:
+                continue
+            cands = [bp for st, bp in impls[(tr, meth)] if st == ty]
+            if len(cands) != 1:
+                continue
+            blk['term'] = dict(t, func=dict(f, fn_resolved=cands[0]), devirt=True)
+            n += 1
+    return n
+
+
 def select(F):
     """{callee path: [(caller path, bb)]} of the helpers to splice"""
     anc = anchors()
@@ -1463,8 +1518,10 @@ def select(F):
             continue
         if any(x in c for x in ('::{', '<impl')):
             continue        # generic impl items: part of an interface, not an extracted helper
-        if (' as ' in c or c.startswith('<')) and not _plain_delegation_target(F, c, ss):
+        devirt_only = all(F.bodies[p_].blocks[bi_]['term'].get('devirt') for p_, bi_ in ss)
+        if (' as ' in c or c.startswith('<')) and not _plain_delegation_target(F, c, ss) and not devirt_only:
             continue        # trait methods stay, unless an inherent fn merely delegates to a std conversion trait implemented next to it
+                            # (or every call of it was resolved from a generic helper's receiver type: devirtualize)
         if 'generated_contracts' in cb.file or cb.path.split('::')[-1].startswith('test'):
             continue
         if any(F.bodies[p].file != cb.file for p, _ in ss):
@@ -1481,7 +1538,8 @@ def select(F):
 def apply(F, log=None):
     """inline the selected helpers (innermost first, up to three rounds); returns the list of spliced (callee, caller)"""
     done = [('%s()' % k, p) for k, p in splice_local_closure_calls(F) + fuse_iterators(F) + desugar(F)]
-    for _ in range(3):
+    for _ in range(4):
+        devirtualize(F)
         sel = select(F)
         if not sel:
             break
